@@ -224,6 +224,8 @@ def r09_7(ctx) -> None:
 
 
 def run(ctx) -> None:
+    from .c08 import r08_5 as _r08_5
+    ctx.guard_as("R09.15", _r08_5)  # PBES2 count / salt: what is used is what the header says
     from .common import forwarding_discipline
     ctx.guard(forwarding_discipline, "R09.11", ['claims', 'encoder_cls', 'value', 'registry', 'algorithms'], 62)  # arguments are handed on under their own name (generic routing rule, rules/common.py)
     # "decoding returns only after the integrity check of the transport passed": the decrypt idioms of C02; header codec of C19
